@@ -26,8 +26,8 @@ PURE_THOROUGH = [("X03lsn", "LsnBook", "as coded the inbound listen-address set 
                  ("X03livesim", "Temporal", "simultaneous open: both links can end up closed (each side keeps the other one)")]
 
 
-def trace_cfg():
-    c = dict(hs.CFGS["X03q"])
+def trace_cfg(base="X03tv"):
+    c = dict(hs.CFGS[base])
     c.update(spec="TSpec", props=[], edges=False, inv=["TypeOK"])
     hs.CFGS["__trace"] = c
     txt = hs.cfg_text("__trace")
@@ -57,7 +57,7 @@ def to_model_vocab(o, w):
     return ev
 
 
-def trace_validation(ctx, binary, name, w, scenarios, walks, steps):
+def trace_validation(ctx, binary, name, w, scenarios, walks, steps, base="X03tv"):
     """random schedules on the real nodes -> Handshake_Trace.  scenarios: list of (allowed conns, maxf).  Returns #walks."""
     jobs = []
     for allowed, maxf in scenarios:
@@ -118,11 +118,11 @@ def trace_validation(ctx, binary, name, w, scenarios, walks, steps):
             for e in bad:
                 f.write(json.dumps(e) + "\n")
         fself = ex.submit(ctx.trace_validate, "Handshake_Trace", bpath, "Handshake_Trace_%s.cfg" % name,
-                          {"Handshake_Trace_%s.cfg" % name: trace_cfg()}, 600)
+                          {"Handshake_Trace_%s.cfg" % name: trace_cfg(base)}, 600)
     else:
         ctx.notes.append("trace %s: no walk reached an established link (self-test skipped)" % name)
     tv = ex.submit(ctx.trace_validate, "Handshake_Trace", tpath, "Handshake_Trace_%s.cfg" % name,
-                   {"Handshake_Trace_%s.cfg" % name: trace_cfg()}, 900).result()
+                   {"Handshake_Trace_%s.cfg" % name: trace_cfg(base)}, 900).result()
     if fself is not None and fself.result()["accepted"]:
         ctx.infra("trace binding self-test (%s): a trace with a dropped neighbour entry was accepted" % name)
     ex.shutdown()
@@ -213,12 +213,14 @@ def run(ctx):
     QUICK = ["X03q1", "X03q2", "X03q3", "X03q4"]
     fedge = {n: pool.submit(hs.model_edges, ctx, n, None, None, 2400) for n in QUICK}
     if T:
-        fedge["X03t"] = pool.submit(hs.model_edges, ctx, "X03t", None, None, 2400)
-        fedge["X03sim"] = pool.submit(hs.model_edges, ctx, "X03sim", "num=600", 70, 1200)
+        # two/three attempts with a fault, 7 attempts with two faults: random walks of the model (sized for a loaded box:
+        # TLC exports ~10 transitions/s at load 100)
+        fedge["X03t"] = pool.submit(hs.model_edges, ctx, "X03t", "num=120", 60, 1500)
+        fedge["X03sim"] = pool.submit(hs.model_edges, ctx, "X03sim", "num=50", 70, 1500)
     fpure = [pool.submit(pure_run, it) for it in PURE_QUICK + (PURE_THOROUGH if T else [])]
 
     binary = fbin.result()
-    budget = 600000 if T else 60000
+    budget = 200000 if T else 60000
     npaths = nsteps = 0
     per_action, results, covers = {}, set(), {}
     world = None
@@ -231,10 +233,12 @@ def run(ctx):
             pass
         rq = _R()
         rq.distinct, rq.wall = sum(p[0].distinct for p in qparts), max(p[0].wall for p in qparts)
-        batches.append(("X03q", (rq, [e for p in qparts for e in p[1]], [i0 for p in qparts for i0 in p[2]], qparts[0][3])))
+        batches.append(("X03q", (rq, [e for p in qparts for e in p[1]], [i0 for p in qparts for i0 in p[2]], hs.World(*[p[3] for p in qparts]))))
     for name in list(fedge):
-        batches.append((name, fedge[name].result()))
+        batches.append((name, fedge[name]))
     for name, mc in batches:
+        if hasattr(mc, "result"):
+            mc = mc.result()         # the quick scenarios are replayed while the thorough TLC runs are still going
         if not (mc and binary):
             continue
         r, edges, inits, w = mc
@@ -242,7 +246,11 @@ def run(ctx):
         if name == "X03q":
             scen_quick = [(s0["allowed"], w.max_faults - s0["nf"]) for s0 in inits]
             # trace validation (schedules chosen by the harness on every quick scenario) runs beside the replay
-            ftv = pool.submit(trace_validation, ctx, binary, "q", w, scen_quick, 30 if T else 3, 70)
+            if T:
+                ftv = pool.submit(trace_validation, ctx, binary, "q", w, scen_quick, 8, 70, "X03q")
+            else:
+                small = [sc for sc in scen_quick if set(sc[0]) <= set(hs.TV_CONNS) and set(w.used(sc[0])) <= set(hs.TV_NODES)]
+                ftv = pool.submit(trace_validation, ctx, binary, "q", w, small, 4, 70, "X03tv")
         paths, ncov, nedges = hs.vf.fast_cover(edges, inits, max_len=60)
         if ncov < nedges or nedges == 0:
             ctx.infra("edge cover of %s incomplete: %d of %d" % (name, ncov, nedges))
